@@ -268,6 +268,9 @@ func genJoinAccept(r *core.RNG) *lorawan.JoinAcceptPayload {
 			} else {
 				pl.Channels[i] = uint32(r.Intn(1<<24)) * 100
 			}
+			if i > 0 && r.Chance(1, 8) {
+				pl.Channels[i] = pl.Channels[r.Intn(i)] // the same frequency in two slots (two channels with different roles)
+			}
 		}
 		ja.CFList = &lorawan.CFList{CFListType: lorawan.CFListChannel, Payload: &pl}
 	case 2:
